@@ -24,9 +24,13 @@
     during the history carries an mtime that no earlier version carried"; the version the initial
     entry was made from counts as an earlier version), with `InitF` (the initial entry carries
     the mtime of the version it was made from, and is not a stale parse stamped as current).
-  * several source paths (`C18_key_projection`, `C18_key_frame`, `C18_fresh_keyed`): the entry-name
-    function is injective on paths (`hinj`; for the code: sha1 of the path exactly as given, checked
-    by the harness as correspondence c18.entry-name); `C18_key_frame_needs_injective` shows the frame
+  * several source paths (`C18_key_projection`, `C18_key_frame`, `C18_fresh_keyed`): a `Path` is an
+    absolute normalised path (what `os.path.abspath` returns in the working directory of the
+    calling process; symlinks are not resolved, a file reached through two different abspaths is two
+    `Path`s with two sources in the model) and the entry-name function is injective on these (`hinj`;
+    for the code: sha1 of `os.path.abspath(filename)`, text pinned by `C18_entry_name_shape`,
+    behaviour checked by the harness as correspondence c18.entry-name, plus collision-freeness of
+    sha1); `C18_key_frame_needs_injective` shows the frame
     property failing without it.  Events of a family are addressed to one path; the version check
     (an operation on the whole directory) is not an event of a family.
   * `C18_version_purge`: "no process of another scanner version stores afterwards" is
@@ -267,10 +271,27 @@ theorem C18_fresh_partial (s0 : State) (h0 : InitF s0) (evs : List Ev)
 /-! ### several source paths: what `load(k)` returns depends only on the events addressed to `k`
 
   Hypothesis beyond the wording, stated explicitly: the entry-name function is injective on paths
-  (`hinj`).  For the real code this is "`_get_filename` hashes the path exactly as given" — checked on
-  every run by the harness (correspondence c18.entry-name: a store of spelling p leaves exactly one
-  entry, named sha1(p)) — plus collision-freeness of sha1.  Independently of this model, the harness
-  judges the statement on the real CacheStore with several files under look-alike spellings. -/
+  (`hinj`), where a path is an ABSOLUTE NORMALISED path: `_get_filename` hashes
+  `os.path.abspath(filename)` (`C18_entry_name_shape`), so two spellings with one abspath are one
+  `Path` (they name one file: sharing the entry is right) and the same relative spelling used from two
+  working directories is two `Path`s (before 382125e the spelling itself was hashed: the name
+  function was not injective on files, see `C18_key_frame_needs_injective`).  Checked on every run by
+  the harness (correspondence c18.entry-name: a store of spelling p from working directory d leaves
+  exactly one entry, named sha1(abspath of p in d)); collision-freeness of sha1 is assumed.
+  Independently of this model, the harness judges the statement on the real CacheStore with several
+  files under look-alike spellings and several working directories. -/
+
+/-- The entry-name function still has the text the key-indexed family assumes: the name is a hash
+    of the ABSOLUTE path (re-extracted from /repo on every run). -/
+theorem C18_entry_name_shape :
+    Gen.Cache.shapeGetFilename =
+      ["def _get_filename(self, filename):",
+       "    if self._directory is None:",
+       "        return",
+       "    filename = os.path.abspath(filename)",
+       "    hexdigest = hashlib.sha1(filename.encode('utf-8')).hexdigest()",
+       "    return os.path.join(self._directory, hexdigest)"] := by
+  decide
 
 /-- With an injective entry-name function the family restricted to path `k` IS the single-key model
     run on the events addressed to `k`. -/
